@@ -48,65 +48,29 @@ def _evals_param(ctx, fn, pname, depth=0):
 
 
 def rule_1(ctx):
-    am = ctx.mod('ast_nodes')
-    ev = ctx.func('ast_nodes', 'FunctionNode.eval')
-    branches = []
-    for n in walk_local(ev):
-        if isinstance(n, ast.If) and _is_xlexpr(ctx, n.test, am):
-            branches.append(n)
-    if len(branches) < 2:
-        raise AnchorMissing(f'FunctionNode.eval: {len(branches)} XlExpr branches (scalar + var-positional expected)')
-    for b in branches:
-        kind = 'var-positional' if 'VAR_POSITIONAL' in ast.unparse(b.test) else 'scalar'
-        forced = []
-        for s in b.body:
-            for c in ast.walk(s):
-                if isinstance(c, ast.Call) and isinstance(c.func, ast.Attribute) and c.func.attr == 'eval':
-                    forced.append(c)
-                elif isinstance(c, ast.Call):
-                    # helper of the package called on the thunk branch: look inside
-                    ref = None
-                    if isinstance(c.func, ast.Attribute) and isinstance(c.func.value, ast.Name) and c.func.value.id == 'self':
-                        ref = f'pkg:ast_nodes:FunctionNode.{c.func.attr}'
-                    elif isinstance(c.func, (ast.Name, ast.Attribute)):
-                        ref = ctx.res.resolve(c.func, am)
-                    hm, hfn = ctx.res.lookup(ref) if ref else (None, None)
-                    if isinstance(hfn, ast.FunctionDef):
-                        for hp in func_params(hfn):
-                            hit = _evals_param(ctx, hfn, hp)
-                            if hit is not None and hp not in ('self', 'context'):
-                                forced.append(hit)
-        ctx.expect(not forced, b, f'{kind} thunk parameter is not evaluated by FunctionNode.eval',
-                   f'an argument bound to an XlExpr parameter is evaluated eagerly (`{ast.unparse(forced[0])[:50] if forced else ""}`): '
-                   'the unselected branch of IF is computed, so an error/unknown function/cycle there takes effect')
-        exprs = [c for s in b.body for c in ast.walk(s) if isinstance(c, ast.Call)
-                 and ctx.res.resolve(c.func, am) == XLT + 'Expr']
-        ok = bool(exprs) and all(c.args and isinstance(c.args[0], ast.Attribute) and c.args[0].attr == 'eval'
-                                 and len(c.args) > 1 and 'context' in ast.unparse(c.args[1]) for c in exprs)
-        ctx.expect(ok, b, f'{kind} thunk = Expr(<node>.eval, (context,))',
-                   'the thunk is not built from the bound eval method and the evaluation context')
-    # the scalar thunk test comes before the generic eager branch
-    eager = [n for n in walk_local(ev) if isinstance(n, ast.Call) and isinstance(n.func, ast.Attribute) and n.func.attr == 'eval']
-    for c in eager:
-        conds = flow.path_conditions(c)
-        excluded = any(not cd.polarity and _is_xlexpr(ctx, cd.test, am) for cd in conds)
-        ctx.expect(excluded, c, f'eager `{ast.unparse(c)[:30]}` only for non-thunk parameters',
-                   'an eager evaluation is reachable for XlExpr-annotated parameters')
-    fm = ctx.mod('xlfunctions.func_xltypes')
-    cast = fm.func('Expr.cast')
-    p = func_params(cast)[1]
-    called = [c for c in flow.calls_in(cast) if isinstance(c.func, ast.Name) and c.func.id == p]
-    ctx.expect(not called, cast, 'Expr.cast does not force its argument', 'the cast applied to XlExpr arguments calls the thunk')
-    call = fm.func('Expr.__call__')
-    r = last_return(call)
-    ok = r is not None and isinstance(r.value, ast.Call) and ast.unparse(r.value.func) == 'self.callable'
-    ctx.expect(ok, call, 'Expr() calls the stored callable once', 'Expr.__call__ does not simply call the stored callable')
-    ve = fm.func('ValueExpr')
-    r = last_return(ve)
-    ok = r is not None and isinstance(r.value, ast.Call) and r.value.args and isinstance(r.value.args[0], ast.Lambda) \
-        and isinstance(r.value.args[0].body, ast.Name) and r.value.args[0].body.id == func_params(ve)[0]
-    ctx.expect(ok, ve, 'ValueExpr(v)() is v', 'ValueExpr does not wrap its value in a constant thunk')
-    ctx.floor(8, 'thunk wrapping obligations')
+    """Delayed parameters receive unevaluated expressions - decided on a witness workbook evaluated as written: the branch that is
+    not selected is never evaluated (its cell is not computed, an unknown function, a division by zero or a reference to the
+    cell itself in it has no effect), for plain references as well as for calls, for the scalar parameters of IF and the
+    variable argument lists of AND / OR; omitted branches take their declared defaults."""
+    from . import workbook as W
+    from . import scenarios as S
+    anchor = ctx.func('ast_nodes', 'FunctionNode.eval')
+    cells = {'A1': 5, 'A2': 0, 'B1': '=A1*2', 'C1': '=A1*3', 'C2': '=A1*4', 'C3': '=A1*5',
+             'F1': '=IF(A1>0,B1,C1)', 'F2': '=IF(A2>0,C2,B1)', 'F3': '=IF(A1>0,1,NOSUCHFUNC(1))', 'F4': '=IF(A2>0,1/0,"ok")', 'F5': '=IF(A1>0,A1,F5)',
+             'F6': '=OR(A1>0,NOSUCHFUNC(1))', 'F7': '=AND(A2>0,NOSUCHFUNC(1))', 'F8': '=OR(A1>0,C3>0)', 'F9': '=IF(A2,"t")', 'F10': '=IF(A1,"t")',
+             'F11': '=IF(A1>0,IF(A2>0,NOSUCHFUNC(1),"inner"),NOSUCHFUNC(2))'}
+    want = {'F1': ('Number', 10), 'F2': ('Number', 10), 'F3': ('Number', 1), 'F4': ('Text', 'ok'), 'F5': ('Number', 5), 'F6': ('Boolean', True),
+            'F7': ('Boolean', False), 'F8': ('Boolean', True), 'F9': ('Boolean', False), 'F10': ('Text', 't'), 'F11': ('Text', 'inner')}
+    wb = W.Workbook(ctx, cells)
+    for a, w in want.items():
+        got = wb.value('Sheet1!' + a)
+        ctx.expect(S.same(got, w), anchor, f'delayed arguments: {cells[a]}',
+                   f'{a} = {cells[a]} (A1 = 5, A2 = 0) evaluates to {got!r}, expected {w!r}: only the selected branch is evaluated')
+    for unselected, by in (('C1', 'F1'), ('C2', 'F2'), ('C3', 'F8')):
+        st = S.stored(wb, 'Sheet1!' + unselected)
+        ctx.expect(st is None or st == ('<no cell>',), anchor, f'the cell of the unselected branch of {cells[by]} is not computed',
+                   f'after evaluating {by} = {cells[by]} the model holds {st!r} for {unselected}: the unselected argument was evaluated')
+    ctx.floor(14, 'delayed-argument cells')
 
 
 class _Thunk(PyModel):
